@@ -79,7 +79,7 @@ import (
 )
 
 const (
-	allocFactor = 16       // cumulative allocation allowed per byte of MaxOpenedBytes (io.ReadAll's growth alone costs ~5x what it reads)
+	allocFactor = 16      // cumulative allocation allowed per byte of MaxOpenedBytes (io.ReadAll's growth alone costs ~5x what it reads)
 	allocSlack  = 8 << 20 // zip directory, hashing, package records
 )
 
